@@ -159,7 +159,7 @@ func (w *World) certLibraryDefect(c *c02Case) bool {
 func c02Certs(p vbase.Params, r *vbase.Result) {
 	r.Rule = "for scheme x cache{0,1,3,100} x n=1..13: honest QC/TC/AggQC from random quorums (completeness at EVERY replica, n>=2) and every structural mutation class (repeated signer, sub-quorum, padded sub-quorum, " +
 		"unknown signer, swapped ids, foreign-message signatures, relabelled view/hash, genesis hash with view!=0, empty/absent signature, random/truncated bytes, BLS bit-field extra/missing bits and trailing zeros, " +
-		"BLS point at infinity, mixed views, AggQC with relabelled view / swapped / dropped / lowered / invalid per-signer QCs) built as a decoder would and passed through the wire form, presented to a verifier that " +
+		"BLS point at infinity, mixed views, AggQC with relabelled view / swapped / dropped / lowered / invalid per-signer QCs, BLS participant labels swapped) built as a decoder would and passed through the wire form, presented to a verifier that " +
 		"has just verified the honest original and its parts (cache warm) and to another one (cold); oracle = sign-log ground truth, never security/cert; non-trivial: mutated certificate; " +
 		"distinct: (type,class,scheme,cache,n,warm/cold)"
 	r.Assume("bootstrap convention: the only signature-free certificates that are valid are QC{genesis hash, view 0} and TC{view 0}")
@@ -689,6 +689,36 @@ func c02Cell(p vbase.Params, r *vbase.Result, scheme string, cache uint, n, repI
 	mutA("relabelled-view-down", qcsHonest, honestAggSig, tv-1)
 	for _, sh := range []uint{8, 16, 32, 48, 63} {
 		mutA(fmt.Sprintf("relabelled-view-plus-2^%d", sh), qcsHonest, honestAggSig, tv+hotstuff.View(1)<<sh)
+	}
+	if scheme == crypto.NameBLS12 && len(T) >= 2 {
+		// the participant labels of a BLS aggregate are not what is verified (the keys come from the QC map): relabel them, same
+		// count, swapping out each signer in turn (in particular the one that attests the highest QC) for a replica that did not
+		// sign. Whether such a certificate is accepted is not judged - a quorum did sign - but the reported high QC must not change.
+		if pa := Decompose(honestAggSig); pa.Kind == crypto.NameBLS12 {
+			in := map[hotstuff.ID]bool{}
+			for _, id := range T {
+				in[id] = true
+			}
+			outsider := hotstuff.ID(n + 1)
+			for _, id := range IDs(n) {
+				if !in[id] {
+					outsider = id
+					break
+				}
+			}
+			for _, drop := range T {
+				var bf crypto.Bitfield
+				for _, id := range T {
+					if id != drop {
+						bf.Add(id)
+					}
+				}
+				bf.Add(outsider)
+				if rs, err := crypto.RestoreBLS12AggregateSignature(pa.Agg, bf); err == nil {
+					mutA("bls-participant-labels-swapped", qcsHonest, rs, tv)
+				}
+			}
+		}
 	}
 	if q >= 2 {
 		sub := T[:q-1]
